@@ -326,6 +326,16 @@ def rule_immutability(ctx: Ctx, rule: str) -> None:
     ok = len(body) == 1 and isinstance(body[0], ast.Raise) and 'AttributeError' in norm_src(body[0])
     ctx.ob(rule, 'util:Immutable.__setattr__/raises', ok, repo.loc('util', imm.node), 'raise AttributeError unconditionally',
            norm_src(body[0])[:60] if body else 'empty', witness='m = compile("*"); m._matcher = x must fail')
+    # deleting an attribute is a mutation too: both ways of changing a slot are closed
+    ic = repo.cls('util', 'Immutable')
+    dl = ic.methods.get('__delattr__')
+    okd = False
+    if dl is not None:
+        bd = [s for s in dl.node.body if not (isinstance(s, ast.Expr) and isinstance(s.value, ast.Constant))]
+        okd = len(bd) == 1 and isinstance(bd[0], ast.Raise) and 'AttributeError' in norm_src(bd[0])
+    ctx.ob(rule, 'util:Immutable.__delattr__/raises', okd, repo.loc('util', (dl.node if dl is not None else ic.node)), 'defined, raise AttributeError unconditionally',
+           'raises' if okd else ('missing' if dl is None else 'does not raise unconditionally'),
+           witness="m = glob.compile('*.txt'); del m._hash  must fail: afterwards hash(m) raises AttributeError and the matcher is unusable as a dict key")
     for mod, cname, fields in (('_wcmatch', 'WcRegexp', ['_include', '_exclude', '_real', '_path', '_follow']),
                                ('_wcmatch', 'WcMatcher', ['_matcher'])):
         ci = repo.cls(mod, cname)
@@ -378,6 +388,18 @@ def rule_immutability(ctx: Ctx, rule: str) -> None:
                              for c in ast.walk(v) if isinstance(c, ast.Compare))
                 ctx.ob(rule, f'{mod}:{cname}.{meth}/shape', shape and cmp_ok, repo.loc(mod, f.node),
                        'conjunction of == ' if meth == '__eq__' else 'disjunction of !=', norm_src(v)[:80])
+                # each field is compared by value (== / !=) with the same field of the other object, directly
+                want_op = ast.Eq if meth == '__eq__' else ast.NotEq
+                direct = set()
+                for c in (v.values if isinstance(v, ast.BoolOp) else [v]):
+                    if isinstance(c, ast.Compare) and len(c.ops) == 1 and isinstance(c.ops[0], want_op):
+                        l, r = norm_src(c.left), norm_src(c.comparators[0])
+                        for a, b in ((l, r), (r, l)):
+                            if a.startswith('self.') and b == 'other.' + a[5:]:
+                                direct.add(a[5:])
+                ctx.ob(rule, f'{mod}:{cname}.{meth}/by-value', sorted(direct) == sorted(fields), repo.loc(mod, f.node),
+                       f'self.f {"==" if meth == "__eq__" else "!="} other.f for every field of {fields}', f'compared directly: {sorted(direct)}',
+                       witness='matchers built from the same patterns and flags must compare equal whether or not the compiled regexes are the same objects (cache eviction, pickling)')
         hf = ci.methods.get('__hash__')
         okhh = hf is not None and any(isinstance(s, ast.Return) and norm_src(s.value) == 'self._hash' for s in hf.node.body)
         ctx.ob(rule, f'{mod}:{cname}.__hash__', okhh, site, 'return self._hash', str(okhh))
